@@ -22,7 +22,15 @@
 (*   Pooled      : the request message comes from a pool and is not reset  *)
 (*                 (fields the request does not bind keep stale values);   *)
 (*   SharedWrite : per-call header options are written into the client's   *)
-(*                 default header map before the request is built.         *)
+(*                 default header map before the request is built;         *)
+(*   UnsyncInit  : the validator singleton is initialised by "look without *)
+(*                 the lock, take the lock only when it is missing" - the  *)
+(*                 look is an unsynchronised read that can meet the write  *)
+(*                 of another request (a data race under the Go memory     *)
+(*                 model, whatever value the read returns).  It only shows *)
+(*                 when the FIRST requests of a process arrive together,   *)
+(*                 which is why the check also drives every parallel group *)
+(*                 as the first thing a new process does.                  *)
 (***************************************************************************)
 EXTENDS Integers, Sequences, FiniteSets, TLC
 
@@ -30,7 +38,7 @@ CONSTANTS Reqs,          \* request ids
           Fields,        \* field names of the bound message
           ReqOf,         \* [Reqs -> [Fields -> Values \cup {"unset"}]] : what the request binds
           HdrOf,         \* [Reqs -> Values \cup {"none"}] : per-call header option of the client call
-          Pooled, SharedWrite
+          Pooled, SharedWrite, UnsyncInit
 
 VARIABLES pc,            \* [Reqs -> {"new","arrived","bound","handled","done"}]
           validator,     \* "uninit" | "ready"            (sync.Once)
@@ -38,8 +46,10 @@ VARIABLES pc,            \* [Reqs -> {"new","arrived","bound","handled","done"}]
           pool,          \* set of returned message objects (only used when Pooled)
           saw,           \* [Reqs -> what the handler saw]
           defaults,      \* client default header (shared)
-          sent           \* [Reqs -> header the client put on the wire]
-vars == <<pc, validator, msg, pool, saw, defaults, sent>>
+          sent,          \* [Reqs -> header the client put on the wire]
+          view,          \* [Reqs -> "none" | "uninit" | "ready"] what r read of the singleton WITHOUT synchronisation (UnsyncInit)
+          lock           \* "free" | r : holder of the mutex around the initialisation (UnsyncInit)
+vars == <<pc, validator, msg, pool, saw, defaults, sent, view, lock>>
 
 Zero == [f \in Fields |-> "zero"]
 \* the outcome of r issued alone on a fresh server / client
@@ -48,6 +58,7 @@ AloneSent(r) == IF HdrOf[r] = "none" THEN "default" ELSE HdrOf[r]
 
 Init == /\ pc = [r \in Reqs |-> "new"] /\ validator = "uninit" /\ msg = [r \in Reqs |-> Zero] /\ pool = {}
         /\ saw = [r \in Reqs |-> Zero] /\ defaults = "default" /\ sent = [r \in Reqs |-> "?"]
+        /\ view = [r \in Reqs |-> "none"] /\ lock = "free"
 
 \* client side of the call: build the header map and send
 ClientSend(r) ==
@@ -56,14 +67,28 @@ ClientSend(r) ==
      THEN defaults' = HdrOf[r] /\ sent' = [sent EXCEPT ![r] = HdrOf[r]]      \* flaw: option stored in the shared map
      ELSE UNCHANGED defaults /\ sent' = [sent EXCEPT ![r] = IF HdrOf[r] = "none" THEN defaults ELSE HdrOf[r]]
   /\ pc' = [pc EXCEPT ![r] = "arrived"]
-  /\ UNCHANGED <<validator, msg, pool, saw>>
+  /\ UNCHANGED <<validator, msg, pool, saw, view, lock>>
 
 InitValidator(r) ==          \* sync.Once: whoever comes first initialises, everybody else reads
+  /\ ~UnsyncInit
   /\ pc[r] = "arrived" /\ validator = "uninit" /\ validator' = "ready"
+  /\ UNCHANGED <<pc, msg, pool, saw, defaults, sent, view, lock>>
+
+\* the wrong design, step by step: look (no lock), lock when missing, write under the lock, unlock
+Look(r) ==
+  /\ UnsyncInit /\ pc[r] = "arrived" /\ view[r] = "none"
+  /\ view' = [view EXCEPT ![r] = validator]                      \* the unsynchronised read
+  /\ UNCHANGED <<pc, validator, msg, pool, saw, defaults, sent, lock>>
+LockInit(r) ==
+  /\ UnsyncInit /\ pc[r] = "arrived" /\ view[r] = "uninit" /\ lock = "free" /\ lock' = r
+  /\ UNCHANGED <<pc, validator, msg, pool, saw, defaults, sent, view>>
+WriteInit(r) ==
+  /\ UnsyncInit /\ lock = r
+  /\ validator' = "ready" /\ lock' = "free" /\ view' = [view EXCEPT ![r] = "ready"]   \* (second look under the lock, then the write)
   /\ UNCHANGED <<pc, msg, pool, saw, defaults, sent>>
 
 Bind(r) ==
-  /\ pc[r] = "arrived" /\ validator = "ready"
+  /\ pc[r] = "arrived" /\ validator = "ready" /\ (UnsyncInit => view[r] = "ready")
   /\ IF Pooled /\ pool # {}
      THEN \E obj \in pool :
             /\ pool' = pool \ {obj}
@@ -71,18 +96,18 @@ Bind(r) ==
      ELSE /\ msg' = [msg EXCEPT ![r] = AloneSaw(r)]                  \* new(Req) + binding
           /\ UNCHANGED pool
   /\ pc' = [pc EXCEPT ![r] = "bound"]
-  /\ UNCHANGED <<validator, saw, defaults, sent>>
+  /\ UNCHANGED <<validator, saw, defaults, sent, view, lock>>
 
 Handle(r) ==
   /\ pc[r] = "bound" /\ saw' = [saw EXCEPT ![r] = msg[r]] /\ pc' = [pc EXCEPT ![r] = "handled"]
-  /\ UNCHANGED <<validator, msg, pool, defaults, sent>>
+  /\ UNCHANGED <<validator, msg, pool, defaults, sent, view, lock>>
 
 Respond(r) ==
   /\ pc[r] = "handled" /\ pc' = [pc EXCEPT ![r] = "done"]
   /\ pool' = IF Pooled THEN pool \cup {msg[r]} ELSE pool
-  /\ UNCHANGED <<validator, msg, saw, defaults, sent>>
+  /\ UNCHANGED <<validator, msg, saw, defaults, sent, view, lock>>
 
-Next == \E r \in Reqs : ClientSend(r) \/ InitValidator(r) \/ Bind(r) \/ Handle(r) \/ Respond(r)
+Next == \E r \in Reqs : ClientSend(r) \/ InitValidator(r) \/ Look(r) \/ LockInit(r) \/ WriteInit(r) \/ Bind(r) \/ Handle(r) \/ Respond(r)
 Spec == Init /\ [][Next]_vars /\ WF_vars(Next)
 
 \* ------------------------------------------------------------------ properties
@@ -90,4 +115,7 @@ C17_HandlerIsolation == \A r \in Reqs : pc[r] \in {"handled", "done"} => saw[r] 
 C17_ClientIsolation  == \A r \in Reqs : pc[r] # "new" => sent[r] = AloneSent(r)
 C17_ValidatorOnce    == [][validator = "ready" => validator' = "ready"]_vars
 C17_AllComplete      == <>(\A r \in Reqs : pc[r] = "done")
+\* no data race on the singleton: an unsynchronised read is never enabled while another request
+\* holds the lock with the write still to come (the two accesses are then unordered)
+C17_NoDataRace == ~ \E r1, r2 \in Reqs : r1 # r2 /\ ENABLED Look(r1) /\ lock = r2 /\ validator = "uninit"
 =============================================================================
